@@ -257,7 +257,21 @@ def attribute_rules(ctx, report):
             else:
                 sws = _presence_switches(r, of_local=vt["dest"]["l"])
                 sinks = {bi for bi, t in mu.calls(r, r"(Entry::<.*>::or_insert|HashMap::<.*>::insert|Entry::<.*>::or_insert_with)$")}
-                if not sws or not sinks:
+                rdefs = mu.defs_of(r)
+                via_map = False
+                if not sws and sinks:
+                    # `next().map(decode)`: Option::map keeps presence by construction; its result must be what is stored
+                    for mbi, mt in mu.calls(r, r"^std::option::Option::<T>::map$"):
+                        if mu.origin_local(r, rdefs, mu.op_local(mt["args"][0])) != vt["dest"]["l"] or mt["dest"]["p"]:
+                            continue
+                        for sbi in sinks:
+                            st_ = r.blocks[sbi]["term"]
+                            if any(mu.origin_local(r, rdefs, mu.op_local(a)) == mt["dest"]["l"] for a in st_["args"][1:] if mu.op_local(a) is not None):
+                                via_map = True
+                if via_map:
+                    report.nontriv("attribute reader: value presence carried by Option::map")
+                    report.sample({"rule": "R4", "reader": r.qname, "presence": "second piece .map(decode) stored as is"})
+                elif not sws or not sinks:
                     viol(report, "C15-R4", r, "no-presence-match", "the attribute reader does not branch on whether a second piece exists "
                          "(%d matches, %d stores)" % (len(sws), len(sinks)))
                 else:
@@ -289,7 +303,8 @@ def run(ctx):
                     "TXT -> attributes); R2 in both back-ends every record handed to add_cached_resource passed the filter "
                     "name != own instance AND name.is_subdomain_of(service); R3 the attribute writer (TXT from a map) writes a `=` on every path of "
                     "a present value and on no path of an absent one; R4 the attribute reader (TXT::attributes) splits once at the first `=` "
-                    "and stores a present value exactly when a second piece exists.")
+                    "and stores a present value exactly when a second piece exists; R5 the escape / unescape functions convert no single byte to a char "
+                    "(nor a char to a byte).")
     ir = ctx.must_find(report, "simple_mdns::InstanceInformation::into_records")
     fr = ctx.must_find(report, "simple_mdns::InstanceInformation::from_records")
     if ir is None or fr is None:
@@ -457,6 +472,32 @@ def run(ctx):
                 viol(report, "C15-R2", x, "unfiltered-" + what, "a record %s by %s does not come out of the own-instance / subdomain filter: %s" % (
                     what, b.qname, why))
     attribute_rules(ctx, report)
+    # ---- R5 the escape / unescape pair works on characters: no byte of the name is turned into a char on its own
+    # (`for b in name.bytes() { out.push(b as char) }` re-encodes every byte >= 0x80 as a Latin-1 character, so a name with a
+    # non-ASCII character does not survive escape -> unescape) and no char is narrowed to a byte
+    n_esc = 0
+    for q in ("simple_mdns::instance_information::escaped_instance_name", "simple_mdns::instance_information::unescaped_instance_name"):
+        eb = prog.find(q)
+        report.count()
+        if eb is None:
+            report.lost_anchor(q)
+            continue
+        n_esc += 1
+        for x in [eb] + mu.closures_of(prog, eb):
+            for bl in x.blocks:
+                if bl["cleanup"]:
+                    continue
+                for s in bl["stmts"]:
+                    if s["s"] == "assign" and s["rv"]["k"] == "cast" and s["rv"]["ck"] == "IntToInt" and s["rv"]["op"]["o"] in ("copy", "move"):
+                        src_t = x.ty(s["rv"]["op"]["pl"]["t"])
+                        dst_t = x.ty(s["rv"]["t"])
+                        if (src_t["k"] == "int" and dst_t["k"] == "char") or (src_t["k"] == "char" and dst_t["k"] == "int" and dst_t["w"] < 32):
+                            report.violate(Violation(report.key(x.qname, "C15-R5", "byte-char", s["sp"].get("sn") or ""), "%s:%d" % (x.file, s["sp"]["l"]), "C15-R5",
+                                                     "C15-R5: `%s` in %s converts between a single byte and a char: the bytes of a multi-byte "
+                                                     "character are escaped / unescaped one by one, so escape followed by unescape does not return "
+                                                     "a name containing a non-ASCII character" % (s["sp"].get("sn") or "cast", x.qname)))
+        report.nontriv("escape works on chars: " + q.split("::")[-1])
+    report.floor("escape / unescape functions scanned", n_esc, 2)
     report.floor("ingest filters verified", n, 2)
     report.sample({"rule": "R2", "filter": "aw.name != full_name && aw.name.is_subdomain_of(service_name)"})
     report.assumptions += ["set / attribute equality across the wire and the escape / unescape inverse are value-level and not decided"]
